@@ -198,7 +198,7 @@ class ConsolidatorBase:
                 )
             else:
                 result = (
-                    list_summands(self.datum_shape[0], self.chunk_shape[0], repeat=self._num_rows),
+                    list_summands((self.datum_shape or (1,))[0], self.chunk_shape[0], repeat=self._num_rows),
                     *[
                         list_summands(ddim, cdim)
                         for ddim, cdim in zip(self.shape[1 : len(self.chunk_shape)], self.chunk_shape[1:])
